@@ -88,7 +88,7 @@ check("C12", "exploration", "property-based testing (Hypothesis) over generated 
       "DESIGN.md section 2, C12")
 
 check("C13", "exploration", "differential testing against freshly forked interpreters (zygote per PYTHONHASHSEED): exhaustive ordered pairs over a call alphabet + Hypothesis-generated call sequences",
-      "Every call of a ~900-call alphabet has a truth value computed in a fresh post-import process; all ordered pairs of a sub-alphabet, generated sequences up to length 50 (with entity "
+      "Every call of a ~500-call alphabet has a truth value computed in a fresh post-import process; all ordered pairs of a sub-alphabet, generated sequences up to length 50 (with entity "
       "creation), a 5000-Sid flood and reduced cache capacity are executed in one process each and every result is compared with the truth; truths are compared across 8 hash seeds and across argument-passing styles.",
       "Trusted: vp/zygote.py (fork-after-import = fresh process). Results produced in set order are compared sorted; results of the list Finder (fresh and long-lived instances) are compared in order.",
       "DESIGN.md section 2, C13")
